@@ -297,7 +297,9 @@ def main(argv=None):
     if herr:
         for h in herr[:3]:
             print("HARNESS-ERROR: " + json.dumps(h)[:3000])
-        return 2
+        if not viols:
+            return 2
+        # trouble in some runs does not undo a violation found, minimised and replayed in others: report it
     if total["runs"] == 0:
         print("HARNESS-ERROR: no run completed")
         return 2
